@@ -352,13 +352,22 @@ class Runner:
             _worker_init(REPO, numba_threads)
             return [run_one(*a) for a in args]
         os.environ.setdefault("VERIF_CASE_TIMEOUT", "1200" if self.tier == "quick" else "3600")  # inherited by the spawned workers
+        # per-worker fixtures that outlive a case (a stored run shared by many cases) live in directories tagged with this run;
+        # the workers are terminated with the pool, so the main process removes those directories when the pool is gone
+        os.environ["VERIF_RUN_TAG"] = f"run{os.getpid()}"
         ctx = mp.get_context("spawn")
         chunk = 1 if len(cases) < 4000 else max(1, min(8, len(cases) // (jobs * 4)))
-        with ctx.Pool(jobs, initializer=_worker_init, initargs=(REPO, numba_threads)) as pool:
-            out = []
-            for r in pool.imap_unordered(_run_one_star, args, chunksize=chunk):
-                out.append(r)
-            return out
+        try:
+            with ctx.Pool(jobs, initializer=_worker_init, initargs=(REPO, numba_threads)) as pool:
+                out = []
+                for r in pool.imap_unordered(_run_one_star, args, chunksize=chunk):
+                    out.append(r)
+                return out
+        finally:
+            import glob
+
+            for d in glob.glob(os.path.join(os.environ.get("TMPDIR", "/tmp"), f"*-{os.environ['VERIF_RUN_TAG']}-*")):
+                shutil.rmtree(d, ignore_errors=True)
 
     # ------------------------------------------------------------------
     def finish(self, cases, results):
